@@ -1,5 +1,5 @@
 (* Model of src/request/mod.rs: Request::generate and Request::parse_request *)
-From Rws Require Import Str Utf8 Num.
+From Rws Require Import Str Utf8 Num Unicase.
 Open Scope N_scope.
 
 Record header := mkH { hname : bytes; hvalue : bytes }.
@@ -32,10 +32,10 @@ Definition parse_request_line (line : bytes) : option (bytes * bytes * bytes) :=
   match split_once t [SP] with
   | None => None
   | Some (m, rest) =>
-    if negb (mem (upper m) methods) then None else
+    if negb (mem (uupper m) methods) then None else
     match split_once rest [SP] with
     | None => None
-    | Some (u, v) => if negb (mem (upper v) versions) then None else Some (m, u, v)
+    | Some (u, v) => if negb (mem (uupper v) versions) then None else Some (m, u, v)
     end
   end.
 
